@@ -72,6 +72,7 @@ Pairs   == {With(With(Default, d1), d2) : d1 \in Deviations, d2 \in Deviations} 
 Cfgs == CASE CfgSet = "default" -> {Default}
           [] CfgSet = "singles" -> {Default} \cup Singles
           [] CfgSet = "comment" -> {Default} \cup {With(Default, d) : d \in CommentDeviations}
+          [] CfgSet = "style3"  -> {Default, With(Default, <<"comment_style", "sharp">>), With(Default, <<"comment_style", "slash">>)}
           [] CfgSet = "style"   -> {Default} \cup {With(Default, d) : d \in StyleDeviations}
           [] CfgSet = "align"   -> {Default, With(Default, <<"align_trailing_comment", TRUE>>),
                                     With(With(Default, <<"align_trailing_comment", TRUE>>), <<"trailing_comment_width", 3>>)}
@@ -258,6 +259,14 @@ Docs == CASE DocSet = "unit"   -> UnitDocs
 Eligible(gs) == {i \in DOMAIN gs : (~OnlyDocumented) \/ gs[i].d}
 OneAt(gs, i) ==
   {[at |-> i, m |-> m, sp |-> "plain", body |-> i] : m \in Markers}
+  \* other spellings of an ordinary comment: a run of marker characters (## / ///), a block comment over two lines,
+  \* and - on a line of its own - an empty line in front of the comment
+  \cup (IF Specials THEN {[at |-> i, m |-> "#", sp |-> "run", body |-> i], [at |-> i, m |-> "//", sp |-> "run", body |-> i],
+                            [at |-> i, m |-> "/*", sp |-> "twolines", body |-> i]}
+                           \cup (IF gs[i].c \in {"lead", "inner"}
+                                 THEN {[at |-> i, m |-> "#", sp |-> "blankbefore", body |-> i], [at |-> i, m |-> "/*", sp |-> "blankbefore", body |-> i]}
+                                 ELSE {})
+        ELSE {})
   \cup (IF Specials /\ gs[i].c = "lead" /\ gs[i].l = "lead"
         THEN {[at |-> i, m |-> "#", sp |-> "fastly", body |-> i], [at |-> i, m |-> "#", sp |-> "ignore", body |-> i],
               [at |-> i, m |-> "//", sp |-> "scope", body |-> i]}
